@@ -64,13 +64,12 @@ pub mod fs_overlay {
     #[cfg(feature = "mmap")]
     pub fn load_binary(xs: &mut Xstate, path: &str) -> Xresult {
         let file = std::fs::File::open(&path).map_err(|e| ioerror_with_path(path, &e))?;
-        let (mm, slice) = unsafe {
-            let mm = Mmap::map(&file).map_err(|e| ioerror_with_path(path, &e))?;
-            let ptr = mm.as_ptr();
-            let slice = std::slice::from_raw_parts(ptr, mm.len());
-            (mm, slice)
-        };
-        xs.defvar_anonymous(Cell::from_any(mm))?;
+        // Bit-strings read from the input borrow the mapping without keeping it alive, and
+        // they can outlive the interpreter (a value popped by the host): the mapping is
+        // never unmapped, so that the `'static` view is one.
+        let mm = unsafe { Mmap::map(&file).map_err(|e| ioerror_with_path(path, &e))? };
+        let mm: &'static Mmap = Box::leak(Box::new(mm));
+        let slice: &'static [u8] = &mm[..];
         xs.set_binary_input(Xbitstr::from(slice))
     }
 
